@@ -23,7 +23,7 @@ META = dict(
                "uses the predicate language of Model/PredLang.v.",
     rule="exhaustive: every legal flag shape up to 3 blocks x 3 predicate assignments x all streams of length<=4 over a "
          "4-symbol alphabet, plus pre/halt/singleton variants x streams<=3; random: 1..3 phenomena, patterns up to 6-8 "
-         "blocks with history-dependent predicates, streams up to 12-40. non-trivial = some run changed state",
+         "blocks with history-dependent predicates (incl. most recent / oldest timestamp of the history), streams up to 12-40, half of them with out-of-order timestamps; all 24 arrival orders of 4 timestamps on 2 timestamp-reading patterns x 5 streams. non-trivial = some run changed state",
     trusted_base=["harness/predlang.py mirror of PredLang.interp", "harness/ref_oracle.py (documented rules as a table)"],
     assumptions=["pattern names unique within a phenomenon; run ids supplied by the generator are fresh"])
 
@@ -43,11 +43,27 @@ def gen_cases(ctx):
             cfg = dict(phen=[(1, [G.pattern(1, blocks, pre, halt, single)])], maxcache=3, idbase=1000)
             for st in G.streams([1, 2, 4], 3 if ctx.quick else 4):
                 cases.append((cfg, [("local", e) for e in G.events(st)]))
+    # events carry their own timestamps: every arrival order of 4 distinct timestamps, on patterns whose
+    # predicates / haltconditions read the most recent and the oldest event of a history with shared groups
+    import itertools
+    B = G.blk
+    tspats = [
+        G.pattern(1, [B([("deq", 1)], "R", 0), B([("deq", 2)], "RL", 0),
+                      B([("and", ("deq", 3), ("tsgap", 1))], "R", 1)], (), (("tsfirst", 3),), False),
+        G.pattern(1, [B([("deq", 1)], "R", 0), B([("deq", 2)], "R", 0),
+                      B([("tsgap", 2)], "S", 0), B([("deq", 3)], "R", 1)], (("not", ("tsfirst", 4)),), (), False),
+    ]
+    for pat in tspats:
+        cfg = dict(phen=[(1, [pat])], maxcache=0, idbase=1000)
+        for st in ([1, 2, 2, 3], [1, 2, 3, 3], [1, 2, 3, 2], [1, 1, 2, 3], [1, 2, 1, 3]):
+            for ts in itertools.permutations(range(4)):
+                cases.append((cfg, [("local", e) for e in G.events(st, ts=ts)]))
     nrand = 1500 if ctx.quick else 20000
-    for _ in range(nrand):
+    for k in range(nrand):
         cfg = G.rand_config(rng, maxblocks=6 if ctx.quick else 8)
         st = G.rand_stream(rng, rng.randint(3, 12 if ctx.quick else 40))
-        cases.append((cfg, [("local", e) for e in G.events(st)]))
+        ts = G.shuffled_ts(rng, len(st)) if k % 2 else None
+        cases.append((cfg, [("local", e) for e in G.events(st, ts=ts)]))
     return cases
 
 
